@@ -1138,6 +1138,8 @@ WITNESSES = [
     dict(id="power-kind-vector", binds=[("a", [0.0, 2.0], "text")], expr=("b", "^", ("v", "a"), ("l", 2))),
     dict(id="divide-array-scalar-zero", binds=[("a", [0, 0], "text")], expr=("b", "%", ("l", 4), ("r", "+", ("v", "a")))),
     dict(id="compare-nested", binds=[("a", [1, [2]], "text")], expr=("b", "=", ("v", "a"), ("l", 0))),
+    dict(id="min-over-nested", binds=[("a", [1, [2]], "text")], expr=("r", "&", ("v", "a"))),
+    dict(id="max-over-nested", binds=[("a", [1, [2]], "text")], expr=("r", "|", ("v", "a"))),
     dict(id="negate-stacking-object-array", binds=[("a", [[], [1]], "text")],
          expr=("b", "-", ("b", "-", ("l", 2), ("b", "*", ("l", 3), ("v", "a"))), ("n", "-", ("s", "*", ("v", "a"))))),
 ]
